@@ -6,6 +6,16 @@ From Regal Require Import Model.Sched.
 Import ListNotations.
 Local Open Scope nat_scope.
 
+Lemma NoDup_app_snoc {A} (l : list A) (x : A) : NoDup l -> ~ In x l -> NoDup (l ++ [x]).
+Proof.
+  intros Hnd Hx. induction Hnd as [ | y l Hy Hnd IH]; cbn.
+  - constructor; [intros [] | constructor].
+  - constructor.
+    + intros Hin. apply in_app_or in Hin. destruct Hin as [Hin | [<- | []]]; [contradiction | ].
+      apply Hx. left. reflexivity.
+    + apply IH. intros Hin. apply Hx. right. exact Hin.
+Qed.
+
 Section LTSProof.
   Variable L St R : Type.
   Variable upd : L -> R -> St -> St.
@@ -26,6 +36,8 @@ Section LTSProof.
   Notation lok := (locked_ok leqb written).
 
   Definition F (l : list nat) : St := fold_left (merge_of upd prog) (map res l) s0.
+
+  Arguments F l : simpl never.
 
   Lemma F_snoc l i : F (l ++ [i]) = rest_merge upd (after_lock prog) (res i) (F l).
   Proof. unfold F. rewrite map_app, fold_left_app. reflexivity. Qed.
@@ -129,7 +141,7 @@ Section LTSProof.
       injection Hstep as <-.
       assert (Hjb : w_before s j).
       { destruct Hj as [H | [H | H]]; [exact H | | ].
-        - destruct H as (H & _). discriminate.
+        - destruct H as (H & _). congruence.
         - destruct H as (_ & _ & H & _). rewrite Hprog in H. discriminate. }
       destruct Hjb as (Hnin & _ & Hlok & Hal & Htmp). rewrite Hprog in Hlok, Hal. cbn in Hlok, Hal.
       unfold inv; cbn. repeat split.
@@ -145,7 +157,7 @@ Section LTSProof.
              rewrite set_w_other by exact Hij. repeat split; auto.
              ++ intros Hin. apply in_app_or in Hin. destruct Hin as [Hin | [Hin | []]]; auto.
              ++ intros [= E]. auto.
-          -- destruct H as (H & _). discriminate.
+          -- destruct H as (H & _). congruence.
           -- right; right. destruct H as (H1 & H2 & H3 & H4). unfold w_after; cbn.
              rewrite set_w_other by exact Hij. repeat split; auto.
              ++ apply in_or_app. left. exact H1.
@@ -181,7 +193,8 @@ Section LTSProof.
       + (* store *)
         injection Hstep as <-.
         assert (Hts : t = sh s).
-        { destruct Htmp as [H | (H & _)]; [discriminate | ]. injection H as ->. reflexivity. }
+        { unfold tmp_ok in Htmp. rewrite Ht in Htmp.
+          destruct Htmp as [H | (H & _)]; [discriminate | ]. injection H as ->. reflexivity. }
         subst t. rewrite put_upd.
         unfold inv; cbn. repeat split; auto.
         * intros i Hi. destruct (Nat.eq_dec i j) as [-> | Hij].
